@@ -219,7 +219,7 @@ Definition legacy_tail (s : st) (i : Z) (x : input) (stt : Z) : st * list out :=
     then restart (set_input s i x) 0
   else (set_input s i x, []).
 Definition legacy_count (s : st) (x : input) (stt : Z) : Z :=
-  if 2000000 <=? u32 (now32 s - i_lsc x) then 1
+  if CHAIN_WINDOW_US <=? u32 (now32 s - i_lsc x) then 1
   else if counted_legacy x stt then s8 (i_cnt x + 1) else i_cnt x.
 (* supla_esp_input_legacy_state_change_handling; x already has last := stt and the timer disarmed *)
 Definition legacy_change (s : st) (i : Z) (x : input) (stt : Z) : st * list out :=
